@@ -208,7 +208,7 @@ Print Assumptions C20_semver_higher.
 
 (* ---------- the oracle evaluated on the implementation's observations ---------- *)
 (* wf: the input contract (well-formed root and sources); for histories that name the place of their sources
-   also at_ok: along the history no installation uses one of the two forms excluded by place_clean *)
+   also at_ok: along the history no directory source is an installed plugin directory holding a non-executable candidate *)
 Theorem C20_model_meets_oracle : forall i, wf i = true -> spec_ok i (model i) = true.
 Proof. exact c20_model_spec_ok. Qed.
 Print Assumptions C20_model_meets_oracle.
@@ -357,15 +357,17 @@ Print Assumptions C20_metadata_refused.
                              separator) / the file <root>/k/f: what it holds is read from the root;
      PLinkDir                a symbolic link to a directory without trailing separator (never usable);
      PLinkFile l k f         a symbolic link named l, outside the root, to <root>/k/f.
-   What remains assumed is place_clean st p: p is not (a) a directory of the root whose only file named
-   notation-{name} is not executable, nor (b) a link named for plugin k into the directory of k. On these
-   two forms the unchanged code still changes the root although it refuses (C20_at_frame_refuted). *)
+   What remains assumed is not_installed_dir_with_nonexec_candidate st p: p is not a directory of the root
+   whose only file named notation-{name} is not executable. For a directory source with such a candidate
+   Install sets the user-executable bit and tries to install it (documented, logged as a warning); applied to
+   a source that is an installed plugin directory this changes the root before anything is checked
+   (C20_at_frame_chmod_refuted). Links are resolved before the same-directory test (ccdc027). *)
 Theorem C20_at_out : forall tbl st src ow, install_at tbl st (POut src) ow = install tbl st src ow.
 Proof. exact at_out. Qed.
 Print Assumptions C20_at_out.
 
 (* a refused or failed installation leaves root, List and all answers as they were, wherever the source lies *)
-Theorem C20_at_frame : forall tbl st p ow st' r, place_clean st p = true ->
+Theorem C20_at_frame : forall tbl st p ow st' r, not_installed_dir_with_nonexec_candidate st p = true ->
   install_at tbl st p ow = (st', r) -> r_err r <> None ->
   st' = st /\ r_new r = None /\ r_existing r = None /\ view_of tbl st' = view_of tbl st.
 Proof. exact at_frame. Qed.
@@ -374,14 +376,14 @@ Print Assumptions C20_at_frame.
 (* ... at any place of a history of any length *)
 Theorem C20_at_history_step_frame : forall tbl ops1 p ow st,
   let T := final_state_at tbl st ops1 in
-  place_clean T p = true -> r_err (snd (install_at tbl T p ow)) <> None ->
+  not_installed_dir_with_nonexec_candidate T p = true -> r_err (snd (install_at tbl T p ow)) <> None ->
   final_state_at tbl st (ops1 ++ [AInstall p ow]) = T.
 Proof. exact at_history_step_frame. Qed.
 Print Assumptions C20_at_history_step_frame.
 
 (* a source inside the root is installed exactly as an outside copy of it would be (so every theorem about
    [install] applies), or it is refused because it is the installed plugin itself, and nothing changes *)
-Theorem C20_at_as_outside : forall tbl st p ow, place_clean st p = true ->
+Theorem C20_at_as_outside : forall tbl st p ow, not_installed_dir_with_nonexec_candidate st p = true ->
   install_at tbl st p ow = install tbl st (rs_src (resolve st p)) ow \/
   (install_at tbl st p ow = (st, mk_ires None None (Some ESelf)) /\
    exists n, rs_home (resolve st p) = Some n /\
@@ -398,7 +400,7 @@ Print Assumptions C20_at_success_outside.
 
 (* the own directory / the own executable of a working plugin, with overwrite: refused, untouched *)
 Theorem C20_at_self_refused : forall tbl st p k exe copy v,
-  place_clean st p = true -> source_ok (rs_src (resolve st p)) = true ->
+  not_installed_dir_with_nonexec_candidate st p = true -> source_ok (rs_src (resolve st p)) = true ->
   rs_home (resolve st p) = Some k -> locate (rs_src (resolve st p)) = LOk exe k copy ->
   tbl_get (f_cid exe) tbl = MOk k v ->
   install_at tbl st p true = (st, mk_ires None None (Some ESelf)).
@@ -414,21 +416,32 @@ Example C20_at_self_v0_refuted :
   install_at self_tbl self_st (PInDir "foo") false = (self_st, mk_ires None None (Some EEqual)).
 Proof. exact self_v0_refuted. Qed.
 
-(* the unchanged code (findings): place_clean cannot be dropped. (a) the only candidate of the plugin's own
-   directory is not executable: every installation from it is refused (equal version / installed plugin
-   itself), but setExecutable has already changed the file - a broken plugin now answers;
-   (b) a link named notation-foo to <root>/foo/notation-foo, with overwrite: copy error, the plugin is gone *)
-Example C20_at_frame_refuted :
-  (let st := [("foo", [F "lib.so" 420 7; F "notation-foo" 420 1])] in
-   place_clean st (PInDir "foo") = false /\
-   (forall ow, exists e, install_at self_tbl st (PInDir "foo") ow
-                         = ([("foo", [F "lib.so" 420 7; F "notation-foo" 484 1])], mk_ires None None (Some e))) /\
-   existing self_tbl st "foo" = Some AFail /\
-   existing self_tbl [("foo", [F "lib.so" 420 7; F "notation-foo" 484 1])] "foo" = Some (AOk "foo" "1.0.0")) /\
-  (place_clean self_st (PLinkFile "notation-foo" "foo" "notation-foo") = false /\
-   install_at self_tbl self_st (PLinkFile "notation-foo" "foo" "notation-foo") true
-     = ([], mk_ires None None (Some ECopy))).
-Proof. exact (conj at_frame_chmod_refuted at_frame_linkfile_refuted). Qed.
+(* the hypothesis of C20_at_frame cannot be dropped. This is the documented chmod of a directory source whose
+   only candidate is not executable, applied to a source that happens to be an installed plugin directory:
+   every installation from it is refused (equal version / installed plugin itself), but the file has gained the
+   user-executable bit and the plugin, broken before, now answers. Not treated as a defect of /repo. *)
+Example C20_at_frame_chmod_refuted :
+  let st := [("foo", [F "lib.so" 420 7; F "notation-foo" 420 1])] in
+  not_installed_dir_with_nonexec_candidate st (PInDir "foo") = false /\
+  (forall ow, exists e, install_at self_tbl st (PInDir "foo") ow
+                        = ([("foo", [F "lib.so" 420 7; F "notation-foo" 484 1])], mk_ires None None (Some e))) /\
+  existing self_tbl st "foo" = Some AFail /\
+  existing self_tbl [("foo", [F "lib.so" 420 7; F "notation-foo" 484 1])] "foo" = Some (AOk "foo" "1.0.0").
+Proof. exact at_frame_chmod_refuted. Qed.
+
+(* the code between 6dc7abe and ccdc027: a link elsewhere to the installed executable, with overwrite -> copy
+   error and the plugin gone; now: refused as the installed plugin itself (equal version without overwrite);
+   a link named for ANOTHER plugin (notation-baz) to it: the name comes from the link, the metadata says foo -> misnamed *)
+Example C20_at_linkfile_v1_refuted :
+  install_at_v1 self_tbl self_st (PLinkFile "notation-foo" "foo" "notation-foo") true
+    = ([], mk_ires None None (Some ECopy)) /\
+  install_at self_tbl self_st (PLinkFile "notation-foo" "foo" "notation-foo") true
+    = (self_st, mk_ires None None (Some ESelf)) /\
+  install_at self_tbl self_st (PLinkFile "notation-foo" "foo" "notation-foo") false
+    = (self_st, mk_ires None None (Some EEqual)) /\
+  install_at self_tbl self_st (PLinkFile "notation-baz" "foo" "notation-foo") true
+    = (self_st, mk_ires None None (Some EMisnamed)).
+Proof. exact linkfile_v1_refuted. Qed.
 
 (* installing foo from the directory of ANOTHER plugin that holds an executable named notation-foo (or from
    that file): as from any directory; the other plugin's directory stays; non-vacuity of wf for such histories *)
